@@ -24,7 +24,7 @@ MIN_NONTRIVIAL = {"quick": 150, "thorough": 1500}
 REQUIRED_FEATURES = ["path:api", "path:sanitize_pixels", "path:cli-cload-pairs", "path:cli-load-bg2", "path:cli-load-coo",
                      "path:tabix", "fate:out-of-range:pos=length", "fate:out-of-range:pos=-1", "fate:unknown-chrom",
                      "tril:reflect", "tril:drop", "tril:none", "one-based", "zero-based", "records:on-bin-edge",
-                     "records:same-anchor", "sided-fields", "path:cli-cload-tabix"]
+                     "records:same-anchor", "sided-fields", "path:cli-cload-tabix", "option:square+copy-status-duplex"]
 
 
 def plan(tier, seed):
@@ -242,7 +242,8 @@ def one_case(ctx, cid, rng, path, idx):
                     chunks = [agg(sanit(ch.copy())) for ch in gen.chunk_frames(df, gen.random_cuts(rng, len(df), 4))]
                     cooler.create_cooler(out_uri, bins, iter(chunks), ordered=False, columns=["count"])
                     keys, cols = read_pixels_raw(out_uri, "/", ("count",))
-                    c.check(dict(zip(keys, cols["count"].tolist())) == want, "pixel-counts-differ:api-create",
+                    c.check(dict(zip(keys, cols["count"].tolist())) == want and list(keys) == sorted(want),
+                            "pixel-counts-differ:api-create",
                             "cooler created from sanitized+aggregated chunks != reference binning")
         # ------------------------------------------------------------ sanitize_pixels
         elif path == "sanitize_pixels":
@@ -345,6 +346,10 @@ def one_case(ctx, cid, rng, path, idx):
                     return
             if tril is None:
                 args.insert(2 if path == "cli_pairs" else 1, "--no-symmetric-upper")
+                if rng.random() < 0.4:
+                    # the copy status is documented for symmetric-upper storage only: square storage keeps both triangles
+                    args[2 if path == "cli_pairs" else 1:2 if path == "cli_pairs" else 1] = ["--input-copy-status", "duplex"]
+                    c.feature("option:square+copy-status-duplex")
             elif tril == "drop":
                 args[2 if path == "cli_pairs" else 1:2 if path == "cli_pairs" else 1] = ["--input-copy-status", "duplex"]
             res = CliRunner().invoke(cli, args)
@@ -363,6 +368,9 @@ def one_case(ctx, cid, rng, path, idx):
                     return
                 keys, cols = read_pixels_raw(out_uri, "/", ("count",))
                 got = dict(zip(keys, cols["count"].tolist()))
+                c.check(list(keys) == sorted(got), f"pixel-rows-repeated-or-unsorted:{path}",
+                        "the loaded pixel table is not a strictly increasing list of pixels",
+                        lambda: {"keys": list(keys)[:30]})
                 c.check(got == want, f"pixel-counts-differ:{path}", "loaded cooler != reference binning",
                         lambda: {"got": sorted(got.items())[:30], "want": sorted(want.items())[:30]})
                 c.check(cooler.Cooler(out_uri).info["sum"] == sum(want.values()), f"total-differs:{path}",
@@ -404,7 +412,7 @@ def one_case(ctx, cid, rng, path, idx):
                 from cooler.cli import cli
                 bed = bins_bed(d, bt)
                 args = ["cload", "tabix", "-c2", "3", "-p2", "4", "-p", str(int(rng.integers(1, 3))),
-                        "-s", str(int(rng.integers(1, 4)))] + ([] if one_based else ["-0"]) + [bed, gzp, out_uri]
+                        "-s", str(int([1, 2, 3, 4, 5, 8][int(rng.integers(6))]))] + ([] if one_based else ["-0"]) + [bed, gzp, out_uri]
                 r = CliRunner().invoke(cli, args)
                 c.feature("path:cli-cload-tabix")
                 if r.exit_code != 0:
@@ -414,7 +422,7 @@ def one_case(ctx, cid, rng, path, idx):
             else:
                 try:
                     it = TabixAggregator(gzp, cs, gen.bt_frame(bt, categorical=True), is_one_based=one_based,
-                                         n_chunks=int(rng.integers(1, 4)), C2=2, P2=3)
+                                         n_chunks=int([1, 2, 3, 4, 5, 8][int(rng.integers(6))]), C2=2, P2=3)
                     cooler.create_cooler(out_uri, bins, it, ordered=True)
                 except (BadInputError, ValueError) as e:
                     raised = f"{type(e).__name__}: {str(e)[:100]}"
@@ -426,6 +434,9 @@ def one_case(ctx, cid, rng, path, idx):
                     return
                 keys, cols = read_pixels_raw(out_uri, "/", ("count",))
                 got = dict(zip(keys, cols["count"].tolist()))
+                c.check(list(keys) == sorted(got), "pixel-rows-repeated-or-unsorted:tabix",
+                        "the tabix-loaded pixel table is not a strictly increasing list of pixels",
+                        lambda: {"keys": list(keys)[:30]})
                 c.check(got == want, "pixel-counts-differ:tabix", "tabix-loaded cooler != reference binning",
                         lambda: {"got": sorted(got.items())[:30], "want": sorted(want.items())[:30]})
         if want is not None and nvalid >= 2:
